@@ -379,9 +379,9 @@ def check(ctx):
     finit = ctx.N(base.methods['__init__'])
     hd = ctx.N(fd.methods['handle_datapackage'])
     a_types = [tables.literal(ctx, base.module.name, n.comparators[0])[0] for n in ast.walk(finit.node)
-               if isinstance(n, ast.Compare) and isinstance(n.ops[0], ast.In) and 'type' in u(n.left)]
+               if isinstance(n, ast.Compare) and isinstance(n.ops[0], (ast.In, ast.NotIn)) and 'type' in u(n.left)]
     b_types = [tables.literal(ctx, fd.module.name, n.comparators[0])[0] for n in ast.walk(hd.node)
-               if isinstance(n, ast.Compare) and isinstance(n.ops[0], ast.In) and 'type' in u(n.left)]
+               if isinstance(n, ast.Compare) and isinstance(n.ops[0], (ast.In, ast.NotIn)) and 'type' in u(n.left)]
     run.check(len(a_types) == 1 and len(b_types) == 1 and sorted(a_types[0]) == sorted(b_types[0]) == sorted(TEMPORAL), 'TFP',
               hd.where, hd.qualname, 'types %s / %s' % (a_types, b_types), 'writer override and descriptor rewrite cover different types')
     a_prop = has_expr('_f.descriptor.get(self.temporal_format_property, None)', finit.node) or \
